@@ -46,6 +46,25 @@ class M:
         self.flags = flags
         _UNI[0] = not (flags & re.ASCII)
 
+    def _fold(self, ch):
+        """the other-case partner of an ASCII letter (as a term for a symbolic character); case-insensitive matching is modelled for ASCII only"""
+        if isinstance(ch, int):
+            if ch >= 128 and chr(ch).lower() != chr(ch).upper(): raise Unsupported('IGNORECASE on a non-ASCII cased character')
+            return ch ^ 32 if (65 <= ch <= 90 or 97 <= ch <= 122) else ch
+        if T.simplify_under(cin_range(ch, 0, 127)) is not True and decide(cin_range(ch, 128, 255)):
+            raise Unsupported('IGNORECASE on a non-ASCII character')
+        return T.iite(cin_range(ch, 65, 90), T.iadd(ch, 32), T.iite(cin_range(ch, 97, 122), T.iadd(ch, -32), ch))
+
+    def lit(self, ch, c):
+        if not (self.flags & re.IGNORECASE): return ceq(ch, c)
+        c2 = self._fold(c)
+        if not isinstance(ch, int): self._fold(ch)      # guard: the subject character must be ASCII too
+        return ceq(ch, c) if c2 == c else zor([ceq(ch, c), ceq(ch, c2)])
+
+    def inset(self, items, ch):
+        if not (self.flags & re.IGNORECASE): return in_pred(items, ch)
+        return zor([in_pred(items, ch), in_pred(items, self._fold(ch))])
+
     def isword_at(self, i):
         if i < 0 or i >= self.n: return False
         return _p(c_isword, u_isword, self.cs[i])
@@ -58,26 +77,37 @@ class M:
         def rest(p, g):
             return self.seq(nodes, idx + 1, p, g, k)
         if op == sc.LITERAL:
-            if pos < self.n and decide(ceq(cs[pos], av)): return rest(pos + 1, groups)
+            if pos < self.n and decide(self.lit(cs[pos], av)): return rest(pos + 1, groups)
             return None
         if op == sc.NOT_LITERAL:
-            if pos < self.n and decide(znot(ceq(cs[pos], av))): return rest(pos + 1, groups)
+            if pos < self.n and decide(znot(self.lit(cs[pos], av))): return rest(pos + 1, groups)
             return None
         if op == sc.ANY:
             if pos < self.n and (self.flags & re.DOTALL or decide(znot(ceq(cs[pos], 10)))): return rest(pos + 1, groups)
             return None
         if op == sc.IN:
-            if pos < self.n and decide(in_pred(av, cs[pos])): return rest(pos + 1, groups)
+            if pos < self.n and decide(self.inset(av, cs[pos])): return rest(pos + 1, groups)
             return None
         if op == sc.SUBPATTERN:
             gid, add_flags, del_flags, sub = av
-            if add_flags or del_flags: raise Unsupported('inline flags')
+            if (add_flags | del_flags) & ~re.IGNORECASE: raise Unsupported('inline flags other than (?i:...)')
             start = pos
+            outer = self.flags
+            inner = (outer | add_flags) & ~del_flags
             def k2(p, g):
                 if gid is not None:
                     g = dict(g); g[gid] = (start, p)
-                return rest(p, g)
-            return self.seq(list(sub), 0, pos, groups, k2)
+                # the continuation runs with the flags of the enclosing pattern; a backtrack into the group gets the group's flags back
+                self.flags = outer
+                try:
+                    return rest(p, g)
+                finally:
+                    self.flags = inner
+            self.flags = inner
+            try:
+                return self.seq(list(sub), 0, pos, groups, k2)
+            finally:
+                self.flags = outer
         if op == sc.BRANCH:
             for alt in av[1]:
                 r = self.seq(list(alt), 0, pos, groups, rest)
@@ -188,7 +218,7 @@ class SymPattern:
         self.flags = pat.flags
         self.groups = pat.groups
         self.groupindex = dict(pat.groupindex)
-        if self.flags & (re.IGNORECASE | re.LOCALE):
+        if self.flags & re.LOCALE:
             raise Unsupported('regex flags')
         self.tree = list(sp.parse(pat.pattern, pat.flags & ~re.UNICODE if False else pat.flags))
 
